@@ -660,4 +660,49 @@ def centre_symmetric(repo: Repo) -> RuleRun:
 centre_symmetric.rule_id = "C14.CENTRE-SYMMETRIC"
 
 
-RULES = [edge_set, side_table, uniform, face_symmetry, no_stale_cache, trig_domain, shape_only, stretch_monotone, scale_free_guards, angle_arguments, no_memo, row_norms, centre_symmetric]
+
+def no_axis_extents(repo: Repo) -> RuleRun:
+    """'the quality measure is unchanged by rigid motions': nothing in the quality kernels is measured along the coordinate axes. A
+    reduction over the point axis that picks per-coordinate extremes - np.ptp(points, axis=0), np.max / np.min(points, axis=0), the
+    bounding box - changes when the cell is turned (a cube in a general orientation has extents sqrt(3) : 1 apart from its edges).
+    Expected count zero; the matcher is exercised on an embedded example on every run."""
+    r = RuleRun(PROP, "C14.NO-AXIS-EXTENTS", floor=1, what="no per-coordinate extreme (ptp / max / min over axis 0: a bounding box) of point arrays in the quality kernels")
+
+    def hits(tree):
+        out = []
+        for n in ast.walk(tree):
+            if not isinstance(n, ast.Call):
+                continue
+            nm = (attr_chain(n.func) or "")
+            last = nm.split(".")[-1] if nm else (n.func.attr if isinstance(n.func, ast.Attribute) else "")
+            if last not in ("ptp", "max", "min", "amax", "amin", "nanmax", "nanmin"):
+                continue
+            axis = None
+            for kw in n.keywords:
+                if kw.arg == "axis":
+                    axis = kw.value
+            if axis is None and nm.startswith(("np.", "numpy.")) and len(n.args) > 1:
+                axis = n.args[1]
+            if isinstance(axis, ast.Constant) and axis.value == 0:
+                out.append(n)
+        return out
+
+    probe = ast.parse("def q(points, lengths):\n    e = np.ptp(points, axis=0)\n    lo = points.min(axis=0)\n    hi = np.max(points, 0)\n    ok = max(lengths)\n    rows = np.linalg.norm(points, axis=1)\n    return e, lo, hi, ok, rows")
+    if len(hits(probe)) != 3:
+        raise AnalysisError("C14.NO-AXIS-EXTENTS: the matcher no longer recognises its embedded examples")
+    n = 0
+    for fn in sorted(repo.all_functions(), key=lambda f: f.qualname):
+        if not fn.module.name.endswith(("optimize.cell",)):
+            continue
+        n += 1
+        for k, c in enumerate(hits(fn.node)):
+            r.bad(fn, f"{fn.qualname} takes '{ast.unparse(c)[:60]}': the extreme of every COORDINATE over the points (a bounding box). It is measured along the axes of the coordinate system, so it changes when the cell is turned: a cube in a general orientation no longer has aspect ratio 1 and scores 0.81 instead of 0", c, key=f"extent#{k}")
+    r.require(n >= 8, f"only {n} functions of optimize.cell scanned")
+    r.ok(None, f"{n} functions scanned; matcher verified on its embedded examples", key="scan")
+    return r
+
+
+no_axis_extents.rule_id = "C14.NO-AXIS-EXTENTS"
+
+
+RULES = [edge_set, side_table, uniform, face_symmetry, no_stale_cache, trig_domain, shape_only, stretch_monotone, scale_free_guards, angle_arguments, no_memo, row_norms, centre_symmetric, no_axis_extents]
